@@ -189,6 +189,63 @@ func c26(r *core.Run) {
 		}
 	}
 	r.Floor("R4.tryupdate", 1)
+
+	// R5 a deferred contract value is written into the storage map of its own account: the receiver of every WriteValue in
+	// Storage.writeContractUpdate / commitContractUpdates comes from GetDomainStorageMap applied to the update's own address,
+	// and a lookup inside the update loop runs on every iteration (a map looked up once is the first account's map)
+	for _, name := range []string{"writeContractUpdate", "commitContractUpdates"} {
+		fn := w.Fn("runtime", "Storage", name)
+		if fn == nil {
+			continue
+		}
+		for _, c := range core.Calls(fn, true) {
+			if !c.Common().IsInvoke() && core.Callee(c) != nil && core.Callee(c).Name() == "WriteValue" {
+				lv := core.OriginLeavesVia(c.Common().Args[0])
+				r.Check(strings.Contains(lv, "via:GetDomainStorageMap") && strings.Contains(lv, ".Address"), "R5.ownaccount", core.SSAKey(fn)+": contract value written to the map of the update's address", posOf(c),
+					"the storage map is looked up from the update's own address", "the storage map a deferred contract value is written to is not looked up from that update's address ("+lv+"): with updates in several accounts a contract value lands in another account's contract domain")
+			}
+		}
+		callsDominateBackEdges(r, "R5.ownaccount", fn, func(o *types.Func) bool { return o != nil && o.Name() == "GetDomainStorageMap" }, core.SSAKey(fn)+": storage map lookup",
+			"the storage map lookup inside the update loop is skipped on some iterations (cached from the first update)")
+	}
+	r.Floor("R5.ownaccount", 2)
+
+	// R6 the contract-addition marker is always released: in updateAccountContractCode every return that follows
+	// StartContractAddition has passed the deferral of EndContractAddition
+	if fn := mustFn(r, "R6.tracker", "stdlib", "", "updateAccountContractCode"); fn != nil {
+		var start ssa.Instruction
+		for _, c := range core.Calls(fn, false) {
+			if c.Common().IsInvoke() && c.Common().Method.Name() == "StartContractAddition" {
+				start = c
+			}
+		}
+		isEndDefer := func(in ssa.Instruction) bool {
+			d, ok := in.(*ssa.Defer)
+			return ok && d.Call.IsInvoke() && d.Call.Method.Name() == "EndContractAddition"
+		}
+		if start == nil {
+			r.Undecided("R6.tracker", core.SSAKey(fn), "StartContractAddition not found")
+		} else {
+			ok := true
+			for _, ret := range core.Returns(fn) {
+				if core.ReachableAfter(start, ret) && !core.MustPass(ret, isEndDefer) {
+					ok = false
+				}
+			}
+			// panics after the start must be covered as well: the deferral dominates everything after the start
+			deferDominates := false
+			core.Instrs(fn, false, func(in ssa.Instruction) {
+				if isEndDefer(in) && core.Dominates(start, in) {
+					// the defer is unconditional relative to the start: its block post-dominates is approximated by
+					// every return passing it (checked above)
+					deferDominates = true
+				}
+			})
+			r.Check(ok && deferDominates, "R6.tracker", core.SSAKey(fn)+": EndContractAddition deferred on every path after StartContractAddition", start.Pos(), "start and deferred end are paired",
+				"the location stays marked as being added on some path (the deferred EndContractAddition became conditional): with a reused environment a later add of the same name is refused")
+		}
+	}
+	r.Floor("R6.tracker", 1)
 }
 
 func reachesFrom(b *ssa.BasicBlock, target ssa.Instruction) bool {
